@@ -172,7 +172,9 @@ def _range_worker(args):
         # redundant encodings: a location only one observer reads is harmless when both the
         # setter and update() always write it from X together with the others
         sym = (R - Rs) | (Rs - R)
-        if all(c01._covered(k, dep) and c01._covered(k, wu[x]) for k in (R | Rs)):
+        if all(c01._covered(k, dep) and c01._covered(k, wu[x]) for k in (R | Rs)) and (R & Rs or not R or not Rs):
+            # ... provided the two observers share a location: observers that read disjoint copies agree only as
+            # long as every writer (other software and the table API included) keeps the copies equal
             sym = set()
         if sym:
             chk.violation(G2, '%s|%s|getter %s / snapshot %s' % (gen, x, ','.join(_S(R)), ','.join(_S(Rs))), wg,
